@@ -1286,7 +1286,13 @@ class System:
         else:
             # Else, the last added module wins
             self._remove(first)
-            self.unprocessed_modules.remove(first)
+            # The modules discovered below a replaced package go away with it.
+            replaced = [first]
+            while replaced:
+                mod = replaced.pop()
+                if mod in self.unprocessed_modules:
+                    self.unprocessed_modules.remove(mod)
+                replaced.extend(o for o in mod.contents.values() if isinstance(o, Module))
             if first.parent is not None and first.parent.contents.get(first.name) is first:
                 # The replaced module might have another parent than the new one (directory "a.b" vs "a/b.py"):
                 # do not leave it behind in its parent's contents.
